@@ -413,10 +413,32 @@ pub fn guard_u8_u16() {
     }
     if grp == 1 { return; }
     let (b, st1, sit1) = enc.into_raw_parts();
-    assert!(st1 == st && sit1 == sit, "C08/C02/C06: dropping the view changed the range encoder's state or situation");
-    assert!(b.len() == npre, "C08/C02/C06: dropping the view did not remove exactly the seal words");
-    let mut i = 0; while i < npre { assert!(b[i] == pre[i], "C08/C02/C06: dropping the view changed the words written so far"); i += 1; }
+    assert!(st1 == st && sit1 == sit, "C08/C02/C06/C11/C12: dropping the view changed the range encoder's state or situation");
+    assert!(b.len() == npre, "C08/C02/C06/C11/C12: dropping the view did not remove exactly the seal words");
+    let mut i = 0; while i < npre { assert!(b[i] == pre[i], "C08/C02/C06/C11/C12: dropping the view changed the words written so far"); i += 1; }
     cover!(matches!(sit, EncoderSituation::Inverted(..)), "inspected while words are held back");
+}
+
+/// C02 / C17: the borrowing and owning decoder constructors start at the BEGINNING of the
+/// compressed words: for_compressed(&words) and from_compressed(words) load the first
+/// State/Word words (zero padded) and the full interval.
+#[cfg_attr(kani, kani::proof)]
+#[cfg_attr(kani, kani::unwind(8))]
+pub fn decoder_constructors_u8_u16() {
+    let d = any_arr::<u8, 3>();
+    let n: usize = any(); assume(n <= 3);
+    let mut v: Vec<u8> = Vec::with_capacity(4);
+    let mut i = 0; while i < n { v.push(d[i]); i += 1; }
+    let mut x: u16 = 0; let mut i = 0; while i < 2 { x = (x << 8) | (if i < n { d[i] as u16 } else { 0 }); i += 1; }
+    if group(2) == 0 {
+        let dec = match RangeDecoder::<u8, u16, _>::for_compressed(&v) { Ok(d) => d, Err(_) => return };
+        let (_b, st, point) = dec.into_raw_parts();
+        assert!(point == x && st.lower() == 0 && st.range().get() == u16::MAX, "C02/C17: for_compressed must start decoding at the first word of the compressed data");
+    } else {
+        let dec = match RangeDecoder::<u8, u16, _>::from_compressed(v) { Ok(d) => d, Err(_) => return };
+        let (_b, st, point) = dec.into_raw_parts();
+        assert!(point == x && st.lower() == 0 && st.range().get() == u16::MAX, "C02/C17: from_compressed must start decoding at the first word of the compressed data");
+    }
 }
 
 /// C02: `clear()` ("resets the coder to the same state as new") must leave an encoder that behaves
